@@ -46,3 +46,18 @@ pub fn h_shim_iter_map_collect<S: Src, const N: usize>(s: &mut S) {
 }
 harness!(shim_chunks_map_collect, unwind = 9, h_shim_chunks_map_collect::<_, 7>);
 harness!(shim_iter_map_collect, unwind = 7, h_shim_iter_map_collect::<_, 5>);
+// slice_try_into_array (R18): <&[u8] as TryInto<&[u8; 32]>>::try_into is Ok(the SAME 32 bytes, zero-copy) iff len == 32
+pub fn h_shim_slice_try_into_array<S: Src>(s: &mut S) {
+    use core::convert::TryInto;
+    let buf: [u8; 40] = s.bytes();
+    let n = s.usize();
+    vassume!(s, n <= 40);
+    let i = &buf[..n];
+    let r: Result<&[u8; 32], _> = i.try_into();
+    match r {
+        Ok(a) => vassert!(s, n == 32 && a.as_ptr() == i.as_ptr(), "shim try_into(&[u8] -> &[u8; 32]): Ok only for exactly 32 bytes, and it is the same memory"),
+        Err(_) => vassert!(s, n != 32, "shim try_into(&[u8] -> &[u8; 32]): 32 bytes never fail"),
+    }
+    vcover!(s, n == 32, "shim try_into: the Ok case is reachable");
+}
+harness!(shim_slice_try_into_array, unwind = 2, h_shim_slice_try_into_array);
